@@ -80,6 +80,47 @@ M={
 		rs.IsNotSet = false
 	}'''),
  'rtime-string': ('interpreter/value/value.go', '''	return strconv.FormatFloat(float64(v.Value.Milliseconds())/1000, 'f', 3, 64)''', '''	return strconv.FormatFloat(v.Value.Seconds(), 'f', 3, 64)'''),
+ 'switch-no-fallthrough': ('interpreter/statement.go', '''		if state == NONE && stmt.Cases[offset].Fallthrough {''', '''		if state == NONE && stmt.Cases[offset].Fallthrough && offset == 0 {'''),
+ 'field-clears-other': ('interpreter/variable/header.go', '''	// Handle setting RFC-8941 dictionary value
+	r.Header.Set(name, setField(r.Header.Get(name), key, val, ","))
+	r.Assign(name)
+}
+
+func setResponseHeaderValue''', '''	// Handle setting RFC-8941 dictionary value
+	r.Header.Set(name, setField(r.Header.Get(name), key, val, ","))
+	r.Assign(name)
+	if strings.EqualFold(name, "ha") {
+		r.Header.Del("hb")
+	}
+}
+
+func setResponseHeaderValue'''),
+ 'call-swallows-state': ('interpreter/statement.go', '''	if state == BARE_RETURN {
+		state = NONE
+	}
+	return state, nil
+}''', '''	if state == BARE_RETURN || state == PASS {
+		state = NONE
+	}
+	return state, nil
+}'''),
+ 'group-no-before-hook': ('tester/tester.go', '''			if hook, ok := d.Befores[strings.ToLower("before_"+s.String())]; ok {''', '''			if hook, ok := d.Befores[strings.ToLower("before_"+s.String())]; ok && len(cases) == 0 {'''),
+ 'group-fresh-per-test': ('tester/tester.go', '''	for _, sub := range d.Subroutines {
+		metadata := getTestMetadata(sub)
+		for _, s := range metadata.Scopes {''', '''	for _, sub := range d.Subroutines {
+		metadata := getTestMetadata(sub)
+		i = t.setupInterpreter(defs)
+		if err := i.TestProcessInit(mockRequest); err != nil {
+			return cases, errors.WithStack(err)
+		}
+		for _, s := range metadata.Scopes {'''),
+ 'cache-global': ('interpreter/cache/cache.go', '''func New() *Cache {
+	return &Cache{}
+}''', '''var shared = &Cache{}
+
+func New() *Cache {
+	return shared
+}'''),
  # harmless refactorings
  'harmless-reorder': ('interpreter/subroutine.go', '''	regex := i.ctx.RegexMatchedValues
 	local := i.localVars
